@@ -64,19 +64,74 @@ def all_dictionary_words():
     return sorted(w for w in ws if w.replace('_', '').isalnum())
 
 
+# every word the keyword tables type as DML or DDL (a snapshot: re-typing one of them in the tables is a change of get_type()'s answers)
+LEADS = ['SELECT', 'INSERT', 'UPDATE', 'DELETE', 'CREATE', 'DROP', 'ALTER', 'MERGE', 'REPLACE', 'TRUNCATE', 'UPSERT', 'COMMIT', 'ROLLBACK', 'START']
+# statement openers of the common dialects, three to five words long: only `CREATE OR REPLACE` may be reported as a whole
+HEADS = ['DROP TABLE IF EXISTS t', 'DROP VIEW IF EXISTS v', 'DROP INDEX IF EXISTS i', 'DROP INDEX CONCURRENTLY i', 'DROP SCHEMA IF EXISTS s CASCADE',
+         'DROP MATERIALIZED VIEW m', 'DROP TEMPORARY TABLE t', 'DROP DATABASE IF EXISTS d',
+         'CREATE TABLE IF NOT EXISTS t (a int)', 'CREATE TEMPORARY TABLE t (a int)', 'CREATE TEMP TABLE IF NOT EXISTS t (a int)', 'CREATE UNIQUE INDEX i ON t (a)',
+         'CREATE INDEX CONCURRENTLY IF NOT EXISTS i ON t (a)', 'CREATE MATERIALIZED VIEW m AS SELECT 1', 'CREATE GLOBAL TEMPORARY TABLE t (a int)',
+         'CREATE UNLOGGED TABLE t (a int)', 'CREATE EXTERNAL TABLE t (a int)', 'CREATE VIRTUAL TABLE t USING fts5(a)', 'CREATE RECURSIVE VIEW v (a) AS SELECT 1',
+         'CREATE SCHEMA IF NOT EXISTS s', 'CREATE DATABASE IF NOT EXISTS d', 'CREATE DEFINER = u VIEW v AS SELECT 1', 'CREATE ALGORITHM = MERGE VIEW v AS SELECT 1',
+         'ALTER TABLE IF EXISTS t ADD COLUMN a int', 'ALTER TABLE ONLY t ADD a int', 'ALTER INDEX IF EXISTS i RENAME TO j', 'ALTER VIEW v AS SELECT 1',
+         'ALTER SESSION SET x = 1', 'ALTER SYSTEM SET x = 1', 'TRUNCATE TABLE ONLY t', 'TRUNCATE TABLE IF EXISTS t',
+         'INSERT OR REPLACE INTO t VALUES (1)', 'INSERT OR IGNORE INTO t VALUES (1)', 'INSERT IGNORE INTO t VALUES (1)', 'INSERT OVERWRITE TABLE t SELECT 1',
+         'INSERT ALL INTO t VALUES (1) SELECT 1', 'INSERT LOW_PRIORITY INTO t VALUES (1)', 'INSERT INTO TABLE t VALUES (1)',
+         'REPLACE INTO t VALUES (1)', 'REPLACE LOW_PRIORITY INTO t VALUES (1)', 'MERGE INTO t USING s ON a = b', 'UPSERT INTO t VALUES (1)',
+         'DELETE FROM ONLY t', 'DELETE LOW_PRIORITY QUICK IGNORE FROM t', 'DELETE TOP (1) FROM t', 'UPDATE ONLY t SET a = 1', 'UPDATE OR REPLACE t SET a = 1',
+         'UPDATE LOW_PRIORITY IGNORE t SET a = 1', 'UPDATE TOP (1) t SET a = 1',
+         'SELECT DISTINCT ON (a) b FROM t', 'SELECT ALL a FROM t', 'SELECT DISTINCT a FROM t', 'SELECT TOP 5 a FROM t', 'SELECT SQL_NO_CACHE a FROM t',
+         'SELECT STRAIGHT_JOIN a FROM t', 'SELECT UNIQUE a FROM t', 'SELECT INTO t FROM u', 'SELECT FOR UPDATE', 'SELECT NOT EXISTS (SELECT 1)',
+         'COMMIT WORK', 'COMMIT TRANSACTION', 'COMMIT AND CHAIN', 'COMMIT PREPARED x', 'ROLLBACK WORK', 'ROLLBACK TO SAVEPOINT s', 'ROLLBACK TRANSACTION',
+         'ROLLBACK AND NO CHAIN', 'START TRANSACTION', 'START TRANSACTION READ ONLY', 'START TRANSACTION ISOLATION LEVEL SERIALIZABLE']
+# leading pieces: every comment form of the lexer and whitespace; the property quantifies over every sequence of them
+PIECES = [' ', '\n', '\t', '\r\n', '\r', '\x0c', '\xa0', '\u2028', '\u3000', '/* c */', '/**/', '/* a\n * b\n */', '/*+ hint */', '/* ; */', '-- c\n', '--\n', '-- c\r\n', '--c\r',
+          '--+ hint\n', '# c\n', '# +hint\n', '-- select\n', "/* ' */", '/* -- */']
+
+
+def prefix_sweep(ctx):
+    """'ignores leading whitespace and comments': every single piece, every ordered pair and a sample of the triples of PIECES (every comment
+    form the lexer knows, every kind of whitespace) in front of one statement per lead"""
+    rng = ctx.rng
+    stmts = [('select a from t', 'SELECT'), ('Insert into t values (1)', 'INSERT'), ('UPDATE t set a = 1', 'UPDATE'), ('delete from t', 'DELETE'),
+             ('create  or\nreplace view v as select 1', 'CREATE OR REPLACE'), ('drop table t', 'DROP'), ('with c as (select 1) select * from c', 'SELECT'),
+             ('foo bar', 'UNKNOWN')]
+    seqs = [(a,) for a in PIECES] + [(a, b) for a in PIECES for b in PIECES]
+    triples = [(a, b, c) for a in PIECES for b in PIECES for c in PIECES]
+    seqs += rng.sample(triples, ctx.n(600, 6000))
+    for seq in seqs:
+        st, want = rng.choice(stmts)
+        oracle(ctx, ''.join(seq) + st, want)
+
+
+def heads_sweep(ctx):
+    rng = ctx.rng
+    for h in HEADS:
+        want = h.split()[0]
+        for variant in (h, h.lower(), ''.join(ch.upper() if rng.random() < 0.5 else ch.lower() for ch in h), h.replace(' ', '\n'), h.replace(' ', '  ')):
+            oracle(ctx, variant, want)
+    # the DML keyword after the CTE definitions: every DML verb, with and without RECURSIVE / several definitions
+    for dml in ['SELECT a FROM c', 'INSERT INTO t SELECT * FROM c', 'UPDATE t SET a = 1', 'DELETE FROM t', 'MERGE INTO t USING c ON a = b', 'REPLACE INTO t SELECT * FROM c',
+                'UPSERT INTO t SELECT * FROM c']:
+        for w in ['WITH c AS (SELECT 1) ', 'with recursive c AS (SELECT 1) ', 'WITH c AS (SELECT 1), d AS (SELECT 2)\n', 'WITH c (x, y) AS (SELECT 1, 2) ']:
+            for cs in (lambda x: x, str.lower):
+                oracle(ctx, w + cs(dml), dml.split()[0])
+
+
 def continuation_sweep(ctx):
     """'The answer ignores … everything after the leading keyword': every leading DML/DDL keyword followed by EVERY dictionary word, and by
     OR/IF/NOT/TEMP/UNIQUE + every dictionary word (a lexer rule that joins the leading keyword with a following phrase would change the
     answer).  The only phrase the property lets through is CREATE OR REPLACE."""
     rng = ctx.rng
-    words = all_dictionary_words()
+    allwords = all_dictionary_words()
+    words = allwords
     if ctx.quick():
         words = [w for w in words if rng.random() < 0.35] + ['ALTER', 'REPLACE', 'OR', 'IF', 'NOT', 'EXISTS', 'TABLE', 'VIEW', 'TEMPORARY', 'UNIQUE']
-    leads = ['SELECT', 'INSERT', 'UPDATE', 'DELETE', 'CREATE', 'DROP', 'ALTER', 'MERGE', 'REPLACE', 'TRUNCATE', 'UPSERT']
+    leads = LEADS
     seconds = ['OR', 'IF', 'NOT', 'TEMP', 'UNIQUE', 'GLOBAL']
     for k in leads:
         case = lambda s: ''.join(ch.upper() if rng.random() < 0.5 else ch.lower() for ch in s)
-        for w in words:
+        for w in allwords:          # level 1 is exhaustive in both tiers (14 leads x ~840 words, about 2 s)
             oracle(ctx, '%s %s x' % (case(k), case(w)), k)
         for s2 in (seconds if not ctx.quick() else [rng.choice(seconds), 'OR']):
             for w in words:
@@ -86,6 +141,8 @@ def continuation_sweep(ctx):
 
 def run(ctx):
     continuation_sweep(ctx)
+    heads_sweep(ctx)
+    prefix_sweep(ctx)
     texts = []
     for text, want in cases(ctx):
         oracle(ctx, text, want)
